@@ -248,6 +248,22 @@ def check_builder(call, ff: bool, edw: bool, phsp, ell: int, particle: Particle)
         if _bad(got, exp, 1e-7):
             return {"dtype": dt.__name__, "what": "builder expression = public lineshape function", "input": {"m": mv, "m_a": mav, "m_b": mbv, "L": ell, "mass": particle.mass, "width": particle.width,
                     "form_factor": ff, "energy_dependent_width": edw, "phsp_factor": _phname(phsp)}, "expected": str(exp), "observed": str(got)}
+    # numbers first: the public function called with exact numbers whose VALUES coincide with other arguments (s = 1 with the
+    # default radius 1, s = L, ...) must give what the builder expression gives at that point
+    for sv, mav, mbv in ((sp.Integer(1), sp.Rational(1, 4), sp.Rational(1, 3)), (sp.Integer(ell) if ell else sp.Integer(4), sp.Rational(1, 4), sp.Rational(1, 5)),
+                         (sp.Integer(4), sp.Integer(1), sp.Rational(1, 2))):
+        mv = sp.sqrt(sv)
+        try:
+            exp = complex(sp.N(expected_expr(ff, edw, phsp, sv, sp.nsimplify(particle.mass), sp.nsimplify(particle.width), mav, mbv, ell, sp.Integer(1)).doit()))
+            got = _call(fb, float(mv), float(mav), float(mbv), *[float(defaults[k]) for k in defaults], dtype=complex)
+        except Exception:  # noqa: BLE001
+            continue
+        if not np.isfinite(exp) or not np.isfinite(got):
+            continue
+        if _bad(got, exp, 1e-7):
+            return {"dtype": "exact numbers first", "what": "public lineshape function called with numbers = builder expression at that point",
+                    "input": {"s": str(sv), "m_a": str(mav), "m_b": str(mbv), "L": ell, "d": 1, "form_factor": ff, "energy_dependent_width": edw, "phsp_factor": _phname(phsp)},
+                    "expected": str(got), "observed": str(exp)}
     return None
 
 
@@ -355,6 +371,7 @@ def build(chk: Check) -> None:
     _form_factor(chk, lmax)
     _functions(chk)
     _builders(chk)
+    _builders_numeric(chk)
     _selftests(chk)
 
 
@@ -695,3 +712,19 @@ def _selftests(chk: Check) -> None:
     ell = sp.Symbol("L", integer=True, nonnegative=True)
     body = t.scalar(DY.EnergyDependentWidth(s, m0, g0, ma_, mb_, ell, d, rho).evaluate())
     chk.mustfail("selftest.EnergyDependentWidth==Gamma0_without_s=m0^2", t.hyps() + S.congruence(t), body.eq(t.val(g0)), function=FD + "EnergyDependentWidth.evaluate")
+
+
+def _builders_numeric(chk: Check) -> None:
+    """Bounded, real code: builder expression vs public function API evaluated numerically, symbols-first AND numbers-first
+    (exact numbers whose values coincide with other arguments), for every flag combination."""
+    particle = Particle(**PARTICLES[0]) if isinstance(PARTICLES[0], dict) else PARTICLES[0]
+    phs = (PSP.PhaseSpaceFactor, PSP.PhaseSpaceFactorSWave) if chk.tier == "quick" else tuple(CLASSES)
+    for name, call, ff, edw, ph in _builder_calls(phs):
+        for ell in ((2,) if chk.tier == "quick" else (0, 1, 2, 3)):
+            def rep(_m=None, call=call, ff=ff, edw=edw, ph=ph, ell=ell):
+                r = check_builder(call, ff, edw, ph, ell, particle)
+                return {"reproduced": bool(r), **(r or {})}
+
+            r = rep()
+            chk.struct(f"numeric_instances.builder==function_api[{name};L={ell}]", not r["reproduced"], "ampform.dynamics.builder.RelativisticBreitWignerBuilder.__call__",
+                       witness=r, replay=rep, bounded=True)
